@@ -53,6 +53,11 @@ def gen_case(rnd):
                 if not isinstance(v, str) or _isnum(v):
                     r["fields"][key] = float("%.4g" % min(max(float(v), 0.1), 10.0))
     states = [{s: float("%.4g" % rnd.uniform(0.5, 10)) for s in species} for _ in range(2)]
+    # a state close to (but inside) the boundary of the positive orthant: one or two components of a few step sizes h = 0.01
+    small = {s: float("%.4g" % rnd.uniform(0.5, 10)) for s in species}
+    for s in rnd.sample(species, rnd.randint(1, min(2, len(species)))):
+        small[s] = rnd.choice([0.02, 0.025, 0.03, 0.035, 0.05, 0.08])
+    states.append(small)
     return {"spec": {"species": species, "x0": {s: 1.0 for s in species}, "params": params, "reactions": rx, "rules": []}, "states": states,
             "t": float("%.3g" % rnd.uniform(0, 5)),
             # in-place parameter changes on the SAME model object between analysis passes (a history): every pass must be
@@ -71,7 +76,7 @@ def _isnum(v):
 
 def generate(tier, seed):
     rnd = util.rng(PROPERTY, tier, seed, "cases")
-    return [gen_case(rnd) for _ in range(60 if tier == "quick" else 1500)]
+    return [gen_case(rnd) for _ in range(45 if tier == "quick" else 1200)]
 
 
 _contract_log = []
